@@ -169,6 +169,8 @@ def jobs(tier, seed):
         "outline": ([F([O(1, [(2, ["te"])], tags=["to"]), S(1)])], {"stop": "sym", "out_dom": D}),
         "2feat": ([F([S(1, tags=["t1"])], tags=["t0"]), F([S(1)])], {"stop": "sym", "dry_run": "sym", "out_dom": D}),
         "select": ([F([S(1, tags=["t1"]), S(1), R([S(1)], tags=["tr"])])], {"select": True, "out_dom": {"*": [0, 1]}}),
+        # a before_feature hook marks a later scenario as skipped: none of that scenario's hooks run
+        "pre-skip": ([F([S(1), S(1, tags=["t1"]), S(1)], tags=["t0"])], {"out_dom": {"*": [0, 1]}, "undef": False, "feature_hook_skips_later_scenario": True}),
         # selection that reaches rows only through the tag of an Examples table: the enclosing hooks still run
         "select-examples": ([F([O(1, [(1, []), (1, [])])], tags=["t0"])], {"select": True, "out_dom": {"*": [0, 1]}, "undef": False}),
         "skipstep": ([F([S(2, tags=["t1"]), S(1)])], {"out_dom": {"*": [5, 6]}}),
